@@ -346,19 +346,6 @@ impl Display for CreateTable {
         if let Some(engine) = &self.engine {
             write!(f, " ENGINE={engine}")?;
         }
-        if let Some(comment_def) = &self.comment {
-            match comment_def {
-                CommentDef::WithEq(comment) => {
-                    write!(f, " COMMENT = '{}'", escape_single_quote_string(comment))?;
-                }
-                CommentDef::WithoutEq(comment) => {
-                    write!(f, " COMMENT '{}'", escape_single_quote_string(comment))?;
-                }
-                // For CommentDef::AfterColumnDefsWithoutEq will be displayed after column definition
-                CommentDef::AfterColumnDefsWithoutEq(_) => (),
-            }
-        }
-
         if let Some(auto_increment_offset) = self.auto_increment_offset {
             write!(f, " AUTO_INCREMENT {auto_increment_offset}")?;
         }
@@ -455,6 +442,19 @@ impl Display for CreateTable {
         }
         if self.strict {
             write!(f, " STRICT")?;
+        }
+        // the parser reads the table comment after every other option, just before `AS <query>`
+        if let Some(comment_def) = &self.comment {
+            match comment_def {
+                CommentDef::WithEq(comment) => {
+                    write!(f, " COMMENT = '{}'", escape_single_quote_string(comment))?;
+                }
+                CommentDef::WithoutEq(comment) => {
+                    write!(f, " COMMENT '{}'", escape_single_quote_string(comment))?;
+                }
+                // For CommentDef::AfterColumnDefsWithoutEq will be displayed after column definition
+                CommentDef::AfterColumnDefsWithoutEq(_) => (),
+            }
         }
         if let Some(query) = &self.query {
             write!(f, " AS {query}")?;
